@@ -182,7 +182,7 @@ def run(ctx, out):
         families = [(n, None) for n in (1, 2, 3, 4, 5)] + [(7, b'a: \\\n'), (8, b'a: \n')]
         budget = 1500
     else:
-        families = [(n, None) for n in (1, 2, 3, 4, 5, 6, 7)] + [(9, b'a: \\\n'), (10, b'a:/ \\\n'), (11, b'a: \n')]
+        families = [(n, None) for n in (1, 2, 3, 4, 5, 6, 7)] + [(9, b'a: \\\n'), (8, b'a:/ \\\n'), (11, b'a: \n')]
         budget = 6 * 3600
     samples = []
     for n, alpha in families:
